@@ -1,10 +1,10 @@
 CONSTANTS
-  NameSeq <- N3
+  NameSeq <- N2
   Slots = {1, 2}
-  MaxNodes = 10
+  MaxNodes = 8
   MaxDepth = 4
-  Actions <- CoreActions
-  InitDeclared = 3
+  Actions <- OpsActions
+  InitDeclared = 2
 INIT Init
 NEXT Next
 CONSTRAINT Bound
